@@ -1,23 +1,34 @@
 import NeverModel.Model.Verify
 import NeverModel.Props.C03
 import NeverModel.Lemmas.VmEffect
+import NeverModel.Lemmas.VmEffectSound
 /-!
 # C07 — emitted code is well-formed on every path, executed or not
 
 `Ver.verify` (Model/Verify.lean) is the per-module certificate checker run on every module the real
 compiler emits (checks/c07.py).  Theorems here connect a successful verification with the rest of
 the development.  A full `verify_sound` (every execution of M-VM on a verified module keeps
-`sp = fp + nparams + h(ip)` and stays inside its frame) has NOT been completed; what is proved is the
-per-instruction half of it for the arithmetic families (`simple_effect_sound_arith`): the (pops, pushes)
-pair the verifier uses for those opcodes is what the M-VM handler does to `sp`, on every machine state.
+`sp = pp + nparams + h(ip)` and stays inside its frame) has NOT been completed; what is proved is its
+per-instruction half for EVERY opcode of the verifier's table (`simple_effect_sound`): the (pops, pushes) pair
+the verifier uses is what the M-VM handler does to `sp`, on every machine state.  The frame opcodes outside the
+table (MARK, CALL, SLIDE, RET, CLEAR_STACK …) have their own exact specifications in Lemmas/Frame.lean; the
+global induction over executions that would combine the two is checked dynamically instead (checks/c07.py compares
+`sp - pp - nparams` with `h(ip)` before every executed instruction of every program it runs).
 -/
 namespace Never.C07
 open Never Never.Vm Never.Ver
 
 /-- a verified module has a well-formed exception table -/
+theorem verify_ok_iff (md : Module) (s : Summary) (h : verify md = .ok s) : ∃ hm, verifyH md = .ok (s, hm) := by
+  unfold verify at h
+  cases hv : verifyH md with
+  | error e => rw [hv] at h; cases h
+  | ok p => rw [hv] at h; obtain ⟨s', hm⟩ := p; simp [Except.map] at h; subst h; exact ⟨hm, rfl⟩
+
 theorem verified_table_wellformed (md : Module) (s : Summary) (h : verify md = .ok s) :
     ExcWF md.exctab md.excCount = true := by
-  unfold verify at h
+  obtain ⟨hm, h⟩ := verify_ok_iff md s h
+  unfold verifyH at h
   simp only [bind, Except.bind] at h
   split at h
   · cases h
@@ -36,7 +47,8 @@ theorem verified_every_fault_has_handler (md : Module) (s : Summary) (h : verify
 
 /-- a verified module is not empty -/
 theorem verified_nonempty (md : Module) (s : Summary) (h : verify md = .ok s) : md.code.size ≠ 0 := by
-  unfold verify at h
+  obtain ⟨hm, h⟩ := verify_ok_iff md s h
+  unfold verifyH at h
   simp only [bind, Except.bind] at h
   split at h
   · cases h
@@ -92,6 +104,22 @@ theorem simple_effect_sound_arith (md : Module) (ins : Instr) (orc : Oracle) (ha
         · left; omega
         · right; exact d
       | none => simp [hb, hu, hc] at ha
+
+/-- **Soundness of the verifier's whole stack-effect table** (proved in Lemmas/VmEffectSound.lean, restated here):
+for every instruction to which `Ver.simpleEffect` assigns `(pops, pushes)`, the M-VM handler started on any machine
+state with `sp = s` and run to completion leaves `fp`, `pp` and the stack size alone and ends with
+`sp = s + pushes - pops`, or with an exception raised (the handler entered next resets `sp` from the frame), or
+stopped in `VM_ERROR` (failed `assert`).  The attempt to prove this found the defect repaired by d4916ed
+(`c_string_ptr` popped its operand). -/
+theorem simple_effect_sound (md : Module) (ins : Instr) (orc : Oracle) (p q : Nat) (h : simpleEffect ins = some (p, q)) (s : Int) :
+    ∀ vm a vm', vm.sp = s → (exec md ins orc).run vm = .ok (a, vm') →
+      vm'.fp = vm.fp ∧ vm'.pp = vm.pp ∧ vm'.stackSize = vm.stackSize ∧
+      (vm'.sp = s + ((q : Int) - (p : Int)) ∨ vm'.running = 2 ∨ vm'.running = 3) :=
+  Vm.simple_effect_sound md ins orc p q h s
+
+/-- the table is defined on 198 of the 222 opcodes (operand 1); the rest are the frame opcodes of Lemmas/Frame.lean,
+MK_INIT_ARRAY (handled with constant propagation), JUMP, the FFI opcodes and the placeholders -/
+example : (Opc.all.toList.filter fun op => (simpleEffect { op := op, w0 := 1, w1 := 0, w2 := 0 }).isSome).length = 198 := by decide +kernel
 
 /-- how many opcodes that theorem covers (of `Opc.all`) — not vacuous -/
 example : (Opc.all.toList.filter isArith).length = 77 := by decide +kernel
